@@ -9,7 +9,7 @@ mkdir -p $OUT
 cp $WT/patch.diff $OUT/patch.diff
 [ -f $WT/NOTES.md ] && cp $WT/NOTES.md $OUT/agent_notes.md
 if [ -f $WT/o2o-tests/tests/zz_demo.rs ]; then cp $WT/o2o-tests/tests/zz_demo.rs $OUT/zz_demo.rs; DEMO=test; fi
-if [ -d $WT/demo ]; then mkdir -p $OUT/demo/src; cp $WT/demo/Cargo.toml $OUT/demo/; cp $WT/demo/src/main.rs $OUT/demo/src/; DEMO=${DEMO:-crate}; fi
+if [ -d $WT/demo ]; then mkdir -p $OUT/demo/src; cp $WT/demo/Cargo.toml $OUT/demo/; cp $WT/demo/src/main.rs $OUT/demo/src/; DEMO=${DEMO:-crate}; [ -f $WT/demo/run.sh ] && { cp $WT/demo/run.sh $OUT/demo/; DEMO=script; }; fi
 # scratch worktree for confirmation
 if [ ! -d $V ]; then git -C /repo worktree add -q $V HEAD; fi
 git -C $V checkout -q -- . ; git -C $V clean -fdq -e target
@@ -22,6 +22,10 @@ run_demo() {
     cp $OUT/zz_demo.rs $V/o2o-tests/tests/zz_demo.rs
     cargo test -p o2o-tests --features syn1 --test zz_demo --offline 2>&1 | grep -E "^test result" | head -1
     rm -f $V/o2o-tests/tests/zz_demo.rs
+  elif [ "$DEMO" = script ]; then
+    mkdir -p $V/demo/src; sed "s#/tmp/wt-c[0-9]*#$V#g" $OUT/demo/Cargo.toml > $V/demo/Cargo.toml; cp $OUT/demo/src/main.rs $V/demo/src/; cp $OUT/demo/run.sh $V/demo/; chmod +x $V/demo/run.sh; cp /repo/Cargo.lock $V/demo/Cargo.lock
+    (CARGO_TARGET_DIR=$V/target/demo $V/demo/run.sh >/dev/null 2>&1; echo "demo/run.sh exit=$?")
+    rm -rf $V/demo
   else
     mkdir -p $V/demo/src; sed "s#/tmp/wt-c[0-9]*#$V#g" $OUT/demo/Cargo.toml > $V/demo/Cargo.toml; cp $OUT/demo/src/main.rs $V/demo/src/; cp /repo/Cargo.lock $V/demo/Cargo.lock
     (cd $V/demo && CARGO_TARGET_DIR=$V/target/demo cargo run --offline -q >/dev/null 2>&1; echo "demo exit=$?")
